@@ -54,10 +54,15 @@ assert o.strip() == '', '/repo is dirty: ' + o
 rc, o = sh('git -C /repo apply %s/patch.diff' % dst)
 assert rc == 0, o
 t = time.time()
+ev = '/verif/evidence/%s.json' % prop
+ev_backup = open(ev).read() if os.path.exists(ev) else None
 try:
     rc, out = sh('/venv/bin/python /verif/tools/check.py %s %s' % (prop, tier), timeout=3600)
 finally:
     sh('git -C /repo checkout -- . && git -C /repo clean -fdq')
+    # the evidence file must describe runs on the unchanged tree only
+    if ev_backup is not None:
+        open(ev, 'w').write(ev_backup)
 lines = [l for l in out.splitlines() if l.startswith('VIOLATION') or l.startswith('  ')]
 meta.setdefault('checks', {})[tier] = {'exit': rc, 'detected': rc == 1 and 'VIOLATION' in out, 'wall_s': round(time.time() - t, 1),
                                         'first_lines': lines[:4], 'no_input': 'no-failing-input-found' in out}
